@@ -394,7 +394,13 @@ func (s *routerSession) hdr(hid int, fs []string) string {
 	for i := 0; i+2 < len(fs); i += 3 {
 		pairs = append(pairs, unhx(fs[i]), unhx(fs[i+2]))
 	}
-	res := okErr(func() { rt.Headers(pairs...) })
+	// the arguments are handed over in a scratch slice that the caller goes on using (a table-driven set-up reusing one
+	// buffer): what Headers() keeps must be its own
+	scratch := append([]string(nil), pairs...)
+	res := okErr(func() { rt.Headers(scratch...) })
+	for i := range scratch {
+		scratch[i] = "X-Scribbled-" + fmt.Sprint(i)
+	}
 	if res == "ok" {
 		matches := map[string]*regexp.Regexp{}
 		for i := 1; i < len(pairs); i += 2 {
